@@ -19,6 +19,9 @@ def apply_contract(it, c, fi, args, kwargs) -> V:
     env.set("__old_env__", OldEnv(old_env, it.fs.mark()))
     # 1. preconditions are obligations of the caller
     for cl in c.requires_:
+        if getattr(cl, "input_assumption", False):
+            it.assumptions_used.add(f"input assumption of {c.func}: {cl.text}")
+            continue
         goal = clauses.eval_clause(it, cl, env)
         it.call_obligations.append((f"pre@call:{c.func}.{cl.label}", goal, list(it.facts), list(it.pc)))
         it.assume(goal)
@@ -46,7 +49,7 @@ def apply_contract(it, c, fi, args, kwargs) -> V:
         env.set(gname, make_value(it, gtype, f"{c.func}.{gname}"))
     clauses.eval_lets(it, c.post_lets, env)
     for cl in c.returns_:
-        if cl.extra.get("caller_assumes", True):
+        if cl.extra.get("caller_assumes", True) and not (cl.extra.get("heavy") and not getattr(it, "use_heavy_callee_posts", False)):
             g = clauses.eval_clause(it, cl, env)
             it.assume(g)
             res2 = _define_result(g, res)
